@@ -165,7 +165,8 @@ class RungeKuttaIntegrator(TableauIntegrator, abc.ABC):
         self.initial_time = D.ar_numpy.copy(initial_time)
         self.initial_rhs = None
         
-        if self.final_rhs is not None:
+        if self.final_rhs is not None and self.final_time is not None and self.final_time == initial_time \
+                and bool(D.ar_numpy.all(self.final_state == initial_state)):
             self.initial_rhs = self.final_rhs
             if self.is_fsal:
                 self.stage_values[...,0] = self.final_rhs
@@ -306,6 +307,8 @@ class RungeKuttaIntegrator(TableauIntegrator, abc.ABC):
         else:
             self.dState = timestep * D.ar_numpy.sum(self.stage_values * self.tableau_final[0, 1:], axis=-1)
             self.final_rhs = rhs(initial_time + self.dTime, initial_state + self.dState, **constants)
+        self.final_time = initial_time + self.dTime
+        self.final_state = initial_state + self.dState
         
         if self.is_implicit and self.__rhs_jac is not None:
             self.__rhs_jac = broyden_update_jac(
